@@ -179,6 +179,7 @@ class SimulationAlgorithm(BaseSimulationAlgorithm):
                 type_errors.append(
                     f"Parameter '{param}': Expected type {type_names}, given {type(value).__name__}"
                 )
+                continue  # value tests are meaningless (and may raise) on a wrong type
             if param == "patient_number" and value <= 0:
                 value_errors.append(
                     "Patient number (patient_number) need to be a positive integer"
@@ -194,7 +195,7 @@ class SimulationAlgorithm(BaseSimulationAlgorithm):
                     "Parameter 'min_spacing_between_visits': Expected type int or float, "
                     f"given {type(value).__name__}"
                 )
-            if value < 0:
+            elif value < 0:
                 value_errors.append(
                     "Parameter 'min_spacing_between_visits' cannot be negative"
                 )
